@@ -444,15 +444,15 @@ func GenHistory(p GenParams) *rapid.Generator[[]Op] {
 					} else {
 						id = rapid.SampledFrom(uIDs).Draw(t, "bid")
 					}
-					if !invalid && (si.live[id] || used[id]) {
-						continue
+					if used[id] || (!invalid && si.live[id]) {
+						continue // no intra-batch duplicates (outside the stated domain); duplicates of live ids only when drawing invalid
 					}
 					if si.live[id] || used[id] {
 						ok = false
 					}
 					used[id] = true
 					it := Item{ID: id, Vec: genVec(t, cfg.Dim), Meta: genMeta(t, p, &cfg)}
-					if invalid && rapid.IntRange(0, 5).Draw(t, "bad-dim-item") == 0 {
+					if invalid && len(keysOf(si.live)) > 0 && rapid.IntRange(0, 5).Draw(t, "bad-dim-item") == 0 {
 						it.Vec = genVec(t, cfg.Dim+1)
 						ok = false
 					}
